@@ -17,7 +17,12 @@ static inline void iora_rbmap_havoc_other(iora_rbmap *m)
   o->flushing = nondet_bool(); o->overflow = nondet_bool(); IORA_ASSUME(o->data.lo <= o->data.hi && o->hasData == (o->data.hi > o->data.lo)); }
 static inline void iora_pcmap_havoc_other(iora_pcmap *m) { (void)m; }
 
+SyncReceiveBuffer *G_fresh; unsigned G_made;
+static inline SyncReceiveBuffer *iora_make_srb(Impl *im)
+{ IORA_ASSERT(G_made == 0, "at most one allocation per call"); G_made++; SyncReceiveBuffer *b = G_fresh; b->data.lo = G_arrived; b->data.hi = G_arrived; b->data.guard = &im->syncMutex; b->guard = &im->syncMutex;
+  b->cv.n_one = 0; b->cv.n_all = 0; b->hasData = false; b->closed = false; b->waiters = 0; b->flushing = false; b->overflow = false; return b; }
 void Impl_onData(Impl *self, SessionId sid, iora_chunk data, iora_time receiveTime);
+#define MODE_OF_(im) ((im)->readModes.present ? (im)->readModes.wval : ReadMode_Async)
 #define DELIVER(data) do { \
   IORA_ASSERT(!G_in_cb, "DL1 no other delivery for this session is in progress (the data callback never runs on two threads at once)"); \
   IORA_ASSERT((data).pos == G_delivered, "DL2 the first byte delivered is stream position G_delivered: in order, no gap, no overlap - each byte exactly once"); } while (0)
@@ -38,8 +43,11 @@ static inline void io_thread_may_deliver(Impl *im)
     IORA_ASSUME(c.n >= 1 && c.n <= ((size_t)1 << 40) && G_arrived <= STREAM_LIMIT - c.n);
     /* this unit follows a stream without overflow (a chunk beyond maxSyncReceiveBuffer is dropped and reported to the SYNC reader only: sync_ondata O1/O2) */
     IORA_ASSUME(im->receiveBuffers.wval->data.hi - im->receiveBuffers.wval->data.lo <= im->config.maxSyncReceiveBuffer && c.n <= im->config.maxSyncReceiveBuffer - (im->receiveBuffers.wval->data.hi - im->receiveBuffers.wval->data.lo));
+    bool disabled = MODE_OF_(im) == ReadMode_Disabled || (MODE_OF_(im) == ReadMode_Async && !im->onDataCb.set);   /* likewise bytes arriving in Async mode with NO data callback registered have no recipient */       /* `a disabled session delivers nothing`: bytes arriving in Disabled mode are discarded by design and are not part of the deliverable stream */
     Impl_onData(im, G_sid, c, t);
-    G_arrived += c.n;
+    if (!disabled) G_arrived += c.n;
+    /* ghost re-basing: an EMPTY vector has no stream position of its own; it is placed at the current end of the stream (it is where the next Sync-mode append goes) */
+    if (im->receiveBuffers.present && im->receiveBuffers.wval->data.lo == im->receiveBuffers.wval->data.hi) { im->receiveBuffers.wval->data.lo = G_arrived; im->receiveBuffers.wval->data.hi = G_arrived; }
   }
 }
 /* the flushing thread's data callback invocation: a delivery of buffered bytes, during which the I/O thread keeps running */
@@ -69,3 +77,11 @@ static inline void iora_flushguard_engage(iora_flushguard *g, iora_mutex *m, siz
 #define MODE_OF(im) ((im)->readModes.present ? (im)->readModes.wval : ReadMode_Async)
 #define FLUSH_LI(im, b) ((im)->receiveBuffers.present && (im)->receiveBuffers.wval == (b) && (b)->flushing && MODE_OF(im) == ReadMode_Sync && !G_in_cb \
   && G_delivered == (b)->data.lo && (b)->data.hi == G_arrived && !(b)->overflow && !(b)->closed && !(im)->shuttingDown && SRB_INV(b, G_arrived, (im)->shuttingDown, (im)->config.maxSyncReceiveBuffer))
+
+/* DATA INVARIANT of a session that is not being flushed (holds whenever no lock is held and no flush is in progress):
+ *   the buffer (if any) starts at G_delivered and ends at G_arrived (nothing in flight, nothing lost), and  mode == Async  ==>  the buffer is EMPTY.
+ * The real onData establishes it: it appends only when mode == Sync; in Async it delivers directly (buffer stays empty); in Disabled it neither appends nor delivers
+ * (proof data_invariant). So the buffer can be non-empty exactly when the mode is Sync - or Disabled after a Sync phase. */
+#define DATA_INV(im, b) (!(im)->receiveBuffers.present ? G_delivered == G_arrived : \
+  ((im)->receiveBuffers.wval == (b) && !(b)->flushing && !(b)->overflow && !(b)->closed && G_delivered == (b)->data.lo && (b)->data.hi == G_arrived \
+   && SRB_INV(b, G_arrived, (im)->shuttingDown, (im)->config.maxSyncReceiveBuffer) && (MODE_OF(im) != ReadMode_Async || (b)->data.lo == (b)->data.hi)))
